@@ -1,6 +1,7 @@
 SPECIFICATION Spec
 CONSTANT Which = "C17"
 CONSTANT TinyLen = 0
+CONSTANT OwnTailLen = 0
 CONSTANT TailLen = 4
 CONSTANT SmallLen = 0
 CONSTANT AsBuilt = {"FilterCleansQueryToo"}
